@@ -9,7 +9,7 @@ for be in BACKS:
     for nm, anchor, nth, has_expr in (('default', 'state_machine ( ) : Derived ( )', 0, 0), ('args', 'state_machine ( ARG0 && t0 , ARG && ... t )', 0, 0),
                                       ('states_expr', 'state_machine ( Expr const & expr , ARG && ... t )', 0, 1), ('states_expr.cxx03', 'state_machine ( Expr const & expr , typename', 0, 1)):
         UNITS.append(Unit(be + '.constructor.' + nm, ['C06', 'C07', 'C03', 'C08', 'C13'], be, Part(SM, [], anchor, nth=nth),
-            'void construct(fsm_t* self, int expr)', 'ctor_back.spec.h', defines=['HAS_EXPR=%d' % has_expr],
+            'void construct(fsm_t* self, int expr)', 'ctor_back.spec.h', defines=['UNIT_CTORS=1', 'HAS_EXPR=%d' % has_expr],
             xform=back_xform([], refparams=(), members=['m_states', 'm_history'], methods=['set_states', 'fill_states'], rewrites=RW), replay=['sel']))
 
 for be in BACKS:
@@ -33,3 +33,31 @@ for be in BACKS:
         'void set_containing_sm(fsm_t* self, fsm_t* sm)', 'ctor_back.spec.h', defines=['UNIT_SET_CONTAINING=1'],
         xform=back_xform([], refparams=(), members=['m_is_included', 'm_substate_list'], rewrites=[
             dict(name='FOREACH-add-state', pat='for_each ( self -> m_substate_list , add_state < ContainingSM > ( self , sm ) ) ;', rep='wire_substates ( self , sm ) ;', min=0, max=1)]), replay=['sel']))
+
+for be in BACKS:
+    SM = be + '/state_machine.hpp'
+    CRW = [dict(name='base-assign', pat='Derived :: operator = ( rhs ) ;', rep='Derived_assign ( self , rhs ) ;', min=0, max=1),
+           dict(name='addr-of-ref', pat='self != & rhs', rep='self != rhs', min=0, max=1)]
+    UNITS.append(Unit(be + '.copy_assignment', ['C15', 'C13'], be, Part(SM, [], 'library_sm & operator = ( library_sm const & rhs )'),
+        'fsm_t* copy_assign(fsm_t* self, const fsm_t* rhs)', 'ctor_back.spec.h', defines=['UNIT_COPY_OPS=1'],
+        xform=back_xform([], refparams=(), methods=['do_copy', 'fill_states'], rewrites=CRW), replay=['copy']))
+    UNITS.append(Unit(be + '.copy_constructor', ['C15', 'C13'], be, Part(SM, [], 'state_machine ( library_sm const & rhs ) : Derived ( rhs )'),
+        'void copy_construct(fsm_t* self, const fsm_t* rhs)', 'ctor_back.spec.h', defines=['UNIT_COPY_OPS=1'],
+        xform=back_xform([], refparams=(), methods=['do_copy', 'fill_states'], rewrites=CRW), replay=['copy']))
+    UNITS.append(Unit(be + '.copy_helper.call', ['C15', 'C13'], be, Part(SM, ['struct copy_helper'], 'void operator ( ) ( wrap < StateType > const & )'),
+        'void copy_helper_call(copy_helper_t* self, type_t StateType)', 'ctor_back.spec.h', defines=['UNIT_COPY_HELPER=1'],
+        xform=back_xform(['get_state_id', 'create_state_helper', 'visitor_helper'], refparams=(), members=['m_sm'], rewrites=[
+            dict(name='TVAL-id', pat='const int state_id = ( get_state_id ( stt , StateType ) ) ;', rep='const int state_id = 0 ;', min=0, max=1),
+            dict(name='OVL-visitor', pat='visitor_helper ( StateType , state_id ) ;', rep='copy_visitor_helper ( self -> m_sm , StateType , state_id ) ;', min=0, max=1),
+            dict(name='SCOPE-set-sm', pat='create_state_helper ( StateType ) :: set_sm ( self -> m_sm ) ;', rep='create_state_set_sm ( StateType , self -> m_sm ) ;', min=0, max=1)]), replay=['copy']))
+    UNITS.append(Unit(be + '.fill_states', ['C07', 'C09', 'C15', 'C13'], be, Part(SM, [], 'void fill_states ( ContainingSM * containing_sm = 0 )'),
+        'void fill_states_unit(fsm_t* self, fsm_t* containing_sm)', 'ctor_back.spec.h', defines=['UNIT_FILL_STATES=1'],
+        xform=back_xform([], refparams=(), members=['m_visitors', 'm_substate_list'], rewrites=[
+            dict(name='policy-check-1', pat='FsmCheckPolicy :: template check_orthogonality < library_sm > ( ) ;', rep='', min=0, max=1),
+            dict(name='policy-check-1b', pat='FsmCheckPolicy :: check_orthogonality < library_sm > ( ) ;', rep='', min=0, max=1),
+            dict(name='policy-check-2', pat='FsmCheckPolicy :: template check_unreachable_states < library_sm > ( ) ;', rep='', min=0, max=1),
+            dict(name='policy-check-2b', pat='FsmCheckPolicy :: check_unreachable_states < library_sm > ( ) ;', rep='', min=0, max=1),
+            dict(name='TVAL-max', pat='const int max_state = ( mpl :: size < state_list > :: value ) ;', rep='const int max_state = 0 ;', min=0, max=1),
+            dict(name='TVAL-max2', pat='const int max_state = ( size < state_list > :: value ) ;', rep='const int max_state = 0 ;', min=0, max=1),
+            dict(name='member-call', pat='self -> m_visitors . fill_visitors ( max_state ) ;', rep='fill_visitors ( self , max_state ) ;', min=0, max=1),
+            dict(name='FOREACH-add-state', pat='for_each ( self -> m_substate_list , add_state < ContainingSM > ( self , containing_sm ) ) ;', rep='wire_substates ( self , containing_sm ) ;', min=0, max=1)]), replay=['sel']))
